@@ -5,7 +5,8 @@
    [hash_stream v] is the exact sequence of Hasher::write_* calls made by Value::hash, so equal
    streams give equal hashes under every Hasher.  Values range over every variant at any depth:
    floats by their 64 bits (all NaN payloads, both zeros), maps with any insertion order. *)
-From VP Require Import Base.Tactics Value.Model Value.ProofsBase Value.ProofsEq Value.ProofsHash.
+From VP Require Import Base.Tactics Value.Model Value.ProofsBase Value.ProofsEq Value.ProofsHash Value.FloatSpec.
+From Flocq Require Import IEEE754.Binary IEEE754.Bits.
 Open Scope Z_scope.
 
 Theorem C40_refl : forall a, wf a = true -> veq a a = true.
@@ -47,3 +48,14 @@ Example C40_float_cases :
   float_hash_bits 18444492273895866368 = float_hash_bits 9218868437227405313 /\
   float_hash_bits 9223372036854775808 = 0.
 Proof. vm_compute. repeat split; reflexivity. Qed.
+
+(* The bit-level float predicates of the model are IEEE-754 binary64 (Flocq): [is_nan] is NaN-ness and
+   [ieee_eq] is comparison-equal, for every 64-bit pattern.  (These two theorems inherit the standard
+   Reals axioms from Flocq's binary64 construction; the four theorems above use no axiom.) *)
+Theorem C40_float_nan_is_ieee : forall x, 0 <= x < 18446744073709551616 ->
+  Model.is_nan x = Binary.is_nan 53 1024 (b64_of_bits x).
+Proof. exact is_nan_flocq. Qed.
+
+Theorem C40_float_eq_is_ieee : forall x y, 0 <= x < 18446744073709551616 -> 0 <= y < 18446744073709551616 ->
+  ieee_eq x y = match Bcompare 53 1024 (b64_of_bits x) (b64_of_bits y) with Some Eq => true | _ => false end.
+Proof. exact ieee_eq_flocq. Qed.
